@@ -362,6 +362,7 @@ func (vt *Model) resize(w int, h int) {
 		vt.primaryScreen[i] = make([]cell, w)
 	}
 	last := vt.cursor.row
+	vt.margin.top = 0
 	vt.margin.bottom = row(h) - 1
 	vt.margin.right = column(w) - 1
 	vt.cursor.row = 0
